@@ -278,6 +278,32 @@ def _mp(x):
     return dict(x) if isinstance(x, pytypes.MappingProxyType) else x
 
 
+class NC:
+    """An operand type whose arithmetic is not commutative: every operation records (operator, left, right)."""
+
+    def __init__(self, tag):
+        self.tag = tag
+
+    def _l(self, op, other):
+        return (op, self.tag, getattr(other, "tag", other))
+
+    def _r(self, op, other):
+        return (op, getattr(other, "tag", other), self.tag)
+
+    def __add__(self, o): return self._l("+", o)          # noqa: E704
+    def __radd__(self, o): return self._r("+", o)         # noqa: E704
+    def __sub__(self, o): return self._l("-", o)          # noqa: E704
+    def __rsub__(self, o): return self._r("-", o)         # noqa: E704
+    def __mul__(self, o): return self._l("*", o)          # noqa: E704
+    def __rmul__(self, o): return self._r("*", o)         # noqa: E704
+    def __truediv__(self, o): return self._l("/", o)      # noqa: E704
+    def __rtruediv__(self, o): return self._r("/", o)     # noqa: E704
+    def __mod__(self, o): return self._l("%", o)          # noqa: E704
+    def __rmod__(self, o): return self._r("%", o)         # noqa: E704
+    def __repr__(self): return f"NC({self.tag!r})"         # noqa: E704
+
+
+NCS = [NC("m"), NC("n")]
 INC = lambda v: v + 1          # noqa: E731
 ISEVEN = lambda v: v % 2 == 0  # noqa: E731
 ADD2 = lambda a, b: a + b      # noqa: E731
@@ -292,6 +318,13 @@ ROWS = {
     "divide_by": (lambda v: F.divide_by(v), lambda x, v: x / v, [NUMS], NUMS),
     "divide_into": (lambda v: F.divide_into(v), lambda x, v: v / x, [NUMS], NUMS),
     "modulo": (lambda v: F.modulo(v), lambda x, v: x % v, [[1, 2, 3, 0, -2]], [0, 1, 5, -3, 7]),
+    "add_nc": (lambda v: F.add(v), lambda x, v: x + v, [("obj", NCS + [2])], NCS + [3]),
+    "subtract_nc": (lambda v: F.subtract(v), lambda x, v: x - v, [("obj", NCS + [2])], NCS + [3]),
+    "multiply_nc": (lambda v: F.multiply(v), lambda x, v: x * v, [("obj", NCS + [2])], NCS + [3]),
+    "left_multiply_nc": (lambda v: F.left_multiply(v), lambda x, v: v * x, [("obj", NCS + [2])], NCS + [3]),
+    "divide_by_nc": (lambda v: F.divide_by(v), lambda x, v: x / v, [("obj", NCS + [2])], NCS + [3]),
+    "divide_into_nc": (lambda v: F.divide_into(v), lambda x, v: v / x, [("obj", NCS + [2])], NCS + [3]),
+    "modulo_nc": (lambda v: F.modulo(v), lambda x, v: x % v, [("obj", NCS + [2])], NCS + [3]),
     "negate": (lambda: F.negate, lambda x: -x, [], NUMS + ["a"]),
     "length": (lambda: F.length, lambda x: len(x), [], [[], [1, 2], "abc", {"a": 1}, 5]),
     "eq": (lambda v: F.eq(v), lambda x, v: x == v, [NUMS + ["a", None]], NUMS + ["a", None, True]),
@@ -352,7 +385,8 @@ ROWS = {
     "call_method_args": (lambda n: F.call_method(n, "a", "z"), lambda x, n: getattr(x, n)("a", "z"), [["replace", "nope"]], ["banana", "", 1]),
     "partial": (lambda v: F.partial(ADD2, b=v), lambda x, v: ADD2(x, b=v), [NUMS + ["a"]], NUMS + ["b"]),
 }
-ALIASES = {"get_default": "get", "get_from_default": "get_from", "reduce_initial": "reduce", "invert_default": "invert", "call_method_args": "call_method"}
+ALIASES = {"add_nc": "add", "subtract_nc": "subtract", "multiply_nc": "multiply", "left_multiply_nc": "left_multiply", "divide_by_nc": "divide_by",
+           "divide_into_nc": "divide_into", "modulo_nc": "modulo", "get_default": "get", "get_from_default": "get_from", "reduce_initial": "reduce", "invert_default": "invert", "call_method_args": "call_method"}
 
 
 def _get(c, k, d):
@@ -383,9 +417,14 @@ def check_helper(case, ctx):
     build, py, doms, _ = row
     args_py, args_lab, okeys, o = [], [], set(), {}
     for i, (dom, how) in enumerate(zip(doms, case["args"])):
-        if isinstance(dom, tuple):
+        if isinstance(dom, tuple) and dom[0] == "fn":
             args_py.append(dom[1])
             args_lab.append(dom[1])
+            continue
+        if isinstance(dom, tuple) and dom[0] == "obj":   # arbitrary Python objects: only as constants
+            v = dom[1][how["i"] % len(dom[1])]
+            args_py.append(v)
+            args_lab.append(v)
             continue
         v = dom[how["i"] % len(dom)]
         args_py.append(v)
@@ -397,10 +436,13 @@ def check_helper(case, ctx):
         else:
             args_lab.append(v)
     x = row[3][case["input"] % len(row[3])]
-    o["IN"] = x
     step = build(*args_lab)
     expected = outcome(lambda: _norm(py(x, *args_py)))
-    got = outcome(lambda: _norm((Option("IN") >> step)(o)))
+    if isinstance(x, NC):
+        got = outcome(lambda: _norm((Value(x) >> step)(o)))
+    else:
+        o["IN"] = x
+        got = outcome(lambda: _norm((Option("IN") >> step)(o)))
     if got != expected:
         raise Violation("helper-differs-from-python", f"{case['helper']}{tuple(args_py) if doms else ''} on input {x!r} (args as {[h['as'] for h in case['args']]}): "
                                                       f"labrea {got} but the Python operation gives {expected}")
@@ -408,6 +450,7 @@ def check_helper(case, ctx):
     if got2 != expected:
         raise Violation("helper-transform-differs", f"{case['helper']} transform({x!r}) gives {got2}, expected {expected}")
     if okeys:
+        o.setdefault("IN", 0)
         E = (Option("IN") >> step).explain(o)
         K = (Option("IN") >> step).keys(o)
         if not okeys <= E or not okeys <= K:
@@ -431,7 +474,7 @@ def enum_helpers(ctx):
         doms = row[2]
         opt_positions = [i for i, d in enumerate(doms) if not isinstance(d, tuple)]
         for xi in range(len(row[3])):
-            idx_ranges = [range(len(d)) if not isinstance(d, tuple) else range(1) for d in doms]
+            idx_ranges = [range(len(d)) if not isinstance(d, tuple) else (range(len(d[1])) if d[0] == "obj" else range(1)) for d in doms]
             for idxs in itertools.product(*idx_ranges):
                 for forms in itertools.product(["const", "option"], repeat=len(opt_positions)):
                     k += 1
@@ -441,7 +484,7 @@ def enum_helpers(ctx):
                     fi = 0
                     for i, d in enumerate(doms):
                         if isinstance(d, tuple):
-                            args.append({"i": 0, "as": "const"})
+                            args.append({"i": idxs[i] if d[0] == "obj" else 0, "as": "const"})
                         else:
                             args.append({"i": idxs[i], "as": forms[fi]})
                             fi += 1
